@@ -304,10 +304,11 @@ Definition remove_tx (o : oracle) (p : pool) (h : Z) : pool :=
       match tl_remove o pl t with
       | (false, _, _) => in_queue p1
       | (true, invalids, pl') =>
-        let p2 := if tl_empty pl'
+        (* "If no more transactions are left, remove the list"; then "Postpone any invalidated transactions" (always) *)
+        let pb := if tl_empty pl'
                   then set_beats (set_pending p1 (assoc_del a (pending p1))) (assoc_del a (beats p1)) (clock p1)
-                       (* the invalidated successors are dropped here: they stay in pool.all only *)
-                  else fold_left (fun q x => snd (enqueue_tx q x)) invalids (set_pending p1 (assoc_set a pl' (pending p1))) in
+                  else set_pending p1 (assoc_set a pl' (pending p1)) in
+        let p2 := fold_left (fun q x => snd (enqueue_tx q x)) invalids pb in
         if tnonce t <? pn_get p2 a then pn_set p2 a (tnonce t) else p2
       end
     end
